@@ -5,12 +5,15 @@ import (
 	"bytes"
 	"encoding/binary"
 	"fmt"
+	"io"
 	"net/http"
 	"os"
 	"sort"
 	"strings"
 	"testing"
+	"time"
 
+	"google.golang.org/grpc/test/bufconn"
 	"google.golang.org/protobuf/proto"
 	"google.golang.org/protobuf/reflect/protoreflect"
 	"google.golang.org/protobuf/types/dynamicpb"
@@ -32,18 +35,19 @@ func TestMain(m *testing.M) {
 }
 
 type Req struct {
-	Proto  string `json:"proto"`  // http | twirp | grpc | grpcweb
-	Verb   string `json:"verb"`   // for http
-	Prefix string `json:"prefix"` // prepended to MuxPath
+	Proto   string `json:"proto"`  // http | twirp | grpc | grpcweb
+	Verb    string `json:"verb"`   // for http
+	Prefix  string `json:"prefix"` // prepended to MuxPath
 	MuxPath string `json:"mux_path"`
-	Query  string `json:"query"`
-	Body   string `json:"body"` // JSON text (http/twirp) or message name field value (grpc*)
+	Query   string `json:"query"`
+	Body    string `json:"body"` // JSON text (http/twirp) or message name field value (grpc*)
 }
 
 type Case struct {
 	Patterns []string `json:"patterns"`
 	Extras   []string `json:"extras"` // extra handler patterns
 	Reqs     []Req    `json:"reqs"`
+	Wire     bool     `json:"wire"` // http/twirp requests are also sent over real HTTP/1.1 connections and the raw response bytes compared (what net/http itself does with a response - HEAD bodies, framing - depends on the request object the handler chain leaves behind)
 }
 
 var rules = route.RuleSet{
@@ -126,6 +130,53 @@ func run(h http.Handler, rec *route.Recorder, req *http.Request) outcome {
 	return o
 }
 
+// wire sends req over a fresh HTTP/1.1 connection (in memory: no TCP ports are used) to a real net/http
+// server and returns the raw response without its Date line; ok=false when the exchange itself failed
+// (never a verdict).
+func wire(lis *bufconn.Listener, req *http.Request) (string, bool) {
+	conn, err := lis.Dial()
+	if err != nil {
+		return "", false
+	}
+	defer conn.Close()
+	conn.SetDeadline(time.Now().Add(30 * time.Second))
+	var body []byte
+	if req.Body != nil {
+		body, _ = io.ReadAll(req.Body)
+	}
+	var sb bytes.Buffer
+	fmt.Fprintf(&sb, "%s %s HTTP/1.1\r\nHost: c20\r\nConnection: close\r\n", req.Method, req.URL.RequestURI())
+	keys := make([]string, 0, len(req.Header))
+	for k := range req.Header {
+		keys = append(keys, k)
+	}
+	sort.Strings(keys)
+	for _, k := range keys {
+		for _, v := range req.Header[k] {
+			fmt.Fprintf(&sb, "%s: %s\r\n", k, v)
+		}
+	}
+	if len(body) > 0 {
+		fmt.Fprintf(&sb, "Content-Length: %d\r\n", len(body))
+	}
+	sb.WriteString("\r\n")
+	sb.Write(body)
+	if _, err := conn.Write(sb.Bytes()); err != nil {
+		return "", false
+	}
+	raw, err := io.ReadAll(conn)
+	if err != nil || len(raw) == 0 {
+		return "", false
+	}
+	var out []string
+	for _, line := range strings.SplitAfter(string(raw), "\r\n") {
+		if !strings.HasPrefix(line, "Date: ") {
+			out = append(out, line)
+		}
+	}
+	return strings.Join(out, ""), true
+}
+
 type extraHandler struct{ hits *[]string }
 
 func (e extraHandler) ServeHTTP(w http.ResponseWriter, r *http.Request) {
@@ -136,7 +187,7 @@ func (e extraHandler) ServeHTTP(w http.ResponseWriter, r *http.Request) {
 
 func prefixOf(pattern string) string { return strings.TrimSuffix(pattern, "/") }
 
-type info struct{ served200, nearMiss, nested int }
+type info struct{ served200, nearMiss, nested, wired int }
 
 func Check(c Case) ([]evid.Violation, info) {
 	var vs []evid.Violation
@@ -159,6 +210,15 @@ func Check(c Case) ([]evid.Violation, info) {
 	}()
 	if err != nil {
 		return []evid.Violation{evid.V("new-server", "", "NewServer(%v, extras %v): %v", c.Patterns, c.Extras, err)}, in
+	}
+	var wsSrv, wsMux *bufconn.Listener
+	if c.Wire {
+		wsSrv, wsMux = bufconn.Listen(1<<20), bufconn.Listen(1<<20)
+		for lis, h := range map[*bufconn.Listener]http.Handler{wsSrv: srv.Handler, wsMux: b.Mux} {
+			hs := &http.Server{Handler: h}
+			go hs.Serve(lis)
+			defer hs.Close()
+		}
 	}
 	hasRoot := false
 	for _, p := range c.Patterns {
@@ -206,6 +266,16 @@ func Check(c Case) ([]evid.Violation, info) {
 			if got != want {
 				vs = append(vs, evid.V("prefix-not-transparent", "", "patterns %v: %s %s %s under prefix %q -> %+v ; bare mux on %q -> %+v", c.Patterns, r.Proto, r.Verb, full, best, got, full[len(best):], want))
 			}
+			if c.Wire && (r.Proto == "http" || r.Proto == "twirp") {
+				wgot, ok1 := wire(wsSrv, build(r, full))
+				wwant, ok2 := wire(wsMux, build(r, full[len(best):]))
+				if ok1 && ok2 {
+					in.wired++
+					if wgot != wwant {
+						vs = append(vs, evid.V("prefix-not-transparent", "on-the-wire", "patterns %v: %s %s %s under prefix %q answers on the wire %q ; bare mux on %q answers %q", c.Patterns, r.Proto, r.Verb, full, best, wgot, full[len(best):], wwant))
+					}
+				}
+			}
 			if got.status == 200 && best != "" {
 				in.served200++
 			}
@@ -248,6 +318,7 @@ func genCase(t *rapid.T) Case {
 			}
 		}
 	}
+	c.Wire = rapid.IntRange(0, 19).Draw(t, "wire") == 0
 	nr := rapid.IntRange(4, 10).Draw(t, "nreq")
 	for i := 0; i < nr; i++ {
 		var r Req
@@ -268,7 +339,7 @@ func genCase(t *rapid.T) Case {
 		}
 		switch r.Proto {
 		case "http":
-			r.Verb = rapid.SampledFrom([]string{"GET", "GET", "POST", "PATCH", "DELETE"}).Draw(t, "verb")
+			r.Verb = rapid.SampledFrom([]string{"GET", "GET", "POST", "PATCH", "DELETE", "HEAD"}).Draw(t, "verb")
 			r.MuxPath = rapid.SampledFrom(muxPaths).Draw(t, "mp")
 			r.Query = rapid.SampledFrom([]string{"", "", "other=1", "nope=1", "i32=5&tags=a&tags=b"}).Draw(t, "q")
 			if r.Verb == "POST" || r.Verb == "PATCH" {
@@ -314,6 +385,10 @@ func TestProp(t *testing.T) {
 		}
 		if len(c.Extras) > 0 {
 			cl = append(cl, "extras")
+		}
+		if in.wired > 0 {
+			cl = append(cl, "compared-on-the-wire")
+			evid.Count("requests-compared-on-the-wire", int64(in.wired))
 		}
 		for _, r := range c.Reqs {
 			evid.Class("proto=" + r.Proto)
